@@ -319,6 +319,9 @@ func (tb *tables) addTime(t time.Time) {
 	}
 	ft := t.Format(time.RFC3339Nano)
 	tb.ftime[key] = [2]interface{}{o, hx(ft)}
+	if _, off := t.Zone(); off%60 != 0 {
+		tb.addTime(t.UTC()) // Predicate.String prints such anchors in UTC (F24)
+	}
 	if t2, err := time.Parse(time.RFC3339Nano, ft); err == nil {
 		tb.ptime[hx(ft)] = obsTime(t2)
 		tb.addTime(t2)
